@@ -27,7 +27,12 @@ pub fn units(id: &str, tier: &str) -> Option<Vec<Unit>> {
         "C09" => c09::units(thorough),
         "C10" => { let mut v = seqprops::c10(thorough); v.extend(schedprops::c10_sched(thorough)); v }
         "C11" => { let mut v = seqprops::c11(thorough); v.extend(schedprops::c11_sched(thorough)); v.push(c14::interference_unit()); v }
-        "C12" => c12::units(thorough),
+        "C12" => {
+            // the deletion behind a busy mailbox (shared with C07): nothing that races with the deletion may hang
+            let mut v = c12::units(thorough);
+            v.extend(c07::units(thorough).into_iter().filter(|u| u.name.starts_with("sched/cap1/delete-sub+") || u.name.contains("/stream+delete+publish")));
+            v
+        }
         "C13" => c13::units(thorough),
         "C14" => c14::units(thorough),
         "C15" => { let mut v = c15::units(thorough); v.extend(seqprops::stream_units(thorough)); v.extend(c06::cancel_units_small(thorough)); v }
